@@ -97,6 +97,17 @@ func (w *World) ApplyAPI(call string) error {
 		if err := w.Mgr.UpdateTag(name, manager.UpdateTagOperationSetConverter(cs)); err != nil {
 			res = "error: " + err.Error()
 		}
+	case "fault":
+		// environment faults: the directory merges write to is unavailable for a while (merges fail,
+		// imports - which use the builder's own path - do not)
+		switch arg {
+		case "mergedir-gone":
+			w.Mgr.VerifSetIndexDir(filepath.Join(w.Dir, "no-such-directory"))
+		case "mergedir-back":
+			w.Mgr.VerifSetIndexDir(w.IndexDir)
+		default:
+			return fmt.Errorf("unknown fault %q", arg)
+		}
 	case "convdel":
 		// the converter executable disappears from the converter directory (delivered as the watcher delivers it)
 		w.Mgr.VerifConverterRemoved(filepath.Join(w.ConvDir, arg))
